@@ -17,6 +17,12 @@ CHECKS = {
  "C19": dict(level="exploration", technique="exhaustive enumeration of all intent strings up to a token-length bound over a 15-token alphabet x hosts x recovery modes x mode-switch orders, against a reference recognizer of the intent grammar",
              text="All strings of <=3 (quick) / <=4 (thorough) tokens over the full alphabet and longer ones over core sub-alphabets, nesting ladders and edge strings, on three hosts; each string drives a 17-call history (IgnoreIntent, Error, both switching orders on one stored expression, repeated calls, braille, stored-tree read-back). A harness-side recognizer of the quoted grammar classifies strings; illegal ones must be ignored / reported, core-legal ones honoured.",
              note="Strings the grammar and the implementation may legitimately disagree on (f(), :p(args), property-only arguments, repeated references) are classed undetermined and only required not to fail in IgnoreIntent mode and not to panic.", design="§4 C19"),
+ "C01": dict(level="exploration", technique="deviation-bounded exhaustive enumeration of MathML terms (grammar G) x separator locales against a visible-text extractor applied to input and output",
+             text="All spine terms of a 39-construct grammar to depth 2, all sibling pairs, ~90 normalisation-trigger terms, and every single deviation (degenerate atoms, delete, duplicate, wrappers, wrap-all, insertions, attributes) at every node (quick: of depth-1 terms; thorough: of depth-2 terms plus deviation pairs on depth-1 terms), in 3 locales: the normalised visible character sequence of the returned MathML must equal that of the input.",
+             note="Normalisation classes (bar, prime, dots, dashes, math alphanumerics, WIRIS fences) are many-to-one, so a change that stays inside one class is not seen. Inputs that panic are C08's. MathCAT's own marker attribute data-changed on author tokens and mprescripts outside mmultiscripts are outside the space (not well-formed author MathML).", design="§4 C01"),
+ "C02": dict(level="exploration", technique="deviation-bounded exhaustive enumeration of MathML terms (grammar G) x separator locales against structural invariants on the parsed result",
+             text="Same enumeration as C01; for every accepted input the returned string must parse, have a math root with one child, respect all element arities and multiscript pairing, contain no empty token, no short unintended mrow and none of the wrappers canonicalization removes; planted special characters must survive the escape round trip; get_navigation_mathml at the root must return the same tree.",
+             note="Parsing is done with python's expat-based ElementTree, independent of the library's sxd-document.", design="§4 C02"),
 }
 PENDING = {}
 
